@@ -48,8 +48,8 @@ def run(ctx, chk):
             continue
         arm = LR.first_label(r)
         qev = L.queue_events(r.trace, r.facts)
-        takes = [x for x in qev if x[0] == "take"]
-        pushes = [x for x in qev if x[0] in ("push", "park")]
+        takes = [x for x in qev if x[0] in ("take", "rtake")]
+        pushes = [x for x in qev if x[0] in ("push", "park", "rpush")]
         ev = [e for e in r.trace if e[0] == "eff" and e[1].startswith("STAT.")]
         want = 1 if (takes and not pushes) else 0
         ok = len(ev) == want and all(e[1] == "STAT.record_order_removed" and L.self_field(e[2][0]) == L.stats_field for e in ev)
